@@ -1,1 +1,966 @@
-fn main() {}
+//! The simulator: derives every history from VERIF_SEED, runs them (in parallel, each in its own
+//! scratch directory), evaluates the oracles, minimises and replays violations, writes evidence.
+//!
+//! Exit status: 0 held on everything explored, 1 violation (with `VIOLATION property=.. replay=..`),
+//! 2 harness error (never a verdict).
+
+use anything_sim::dirstate::{self, Paths, Reference};
+use anything_sim::exec::{allowed_cpus, Exit, Launcher};
+use anything_sim::gen;
+use anything_sim::history::*;
+use anything_sim::rng::{derive, fnv1a, Rng};
+use anything_sim::script::*;
+use anything_sim::shipped;
+use anything_sim::shrink::shrink;
+use serde_json::{json, Value};
+use std::collections::{BTreeMap, BTreeSet, HashSet};
+use std::path::{Path, PathBuf};
+use std::sync::atomic::{AtomicUsize, Ordering};
+use std::sync::mpsc;
+use std::time::{Duration, Instant};
+
+const DEFAULT_SEED: u64 = 20260927;
+
+struct Opts {
+    cmd: String,
+    prop: String,
+    tier: String,
+    seed: u64,
+    jobs: usize,
+    repo: String,
+    verif: PathBuf,
+    file: Option<String>,
+    runs: Option<usize>,
+    budget: Option<Duration>,
+}
+
+fn parse_opts() -> Opts {
+    let args: Vec<String> = std::env::args().skip(1).collect();
+    let mut o = Opts {
+        cmd: args.first().cloned().unwrap_or_default(),
+        prop: String::new(),
+        tier: std::env::var("VERIF_TIER").unwrap_or_else(|_| "quick".into()),
+        seed: std::env::var("VERIF_SEED").ok().and_then(|s| s.parse().ok()).unwrap_or(DEFAULT_SEED),
+        jobs: std::env::var("VERIF_JOBS").ok().and_then(|s| s.parse().ok()).unwrap_or(0),
+        repo: std::env::var("VERIF_REPO").unwrap_or_else(|_| "/repo".into()),
+        verif: PathBuf::from(std::env::var("VERIF_DIR").unwrap_or_else(|_| "/verif".into())),
+        file: None,
+        runs: std::env::var("VERIF_RUNS").ok().and_then(|s| s.parse().ok()),
+        budget: std::env::var("VERIF_BUDGET_S").ok().and_then(|s| s.parse().ok()).map(Duration::from_secs),
+    };
+    let mut i = 1;
+    while i < args.len() {
+        match args[i].as_str() {
+            "--prop" => {
+                o.prop = args.get(i + 1).cloned().unwrap_or_default();
+                i += 1;
+            }
+            "--tier" => {
+                o.tier = args.get(i + 1).cloned().unwrap_or_default();
+                i += 1;
+            }
+            "--seed" => {
+                o.seed = args.get(i + 1).and_then(|s| s.parse().ok()).unwrap_or(o.seed);
+                i += 1;
+            }
+            "--jobs" => {
+                o.jobs = args.get(i + 1).and_then(|s| s.parse().ok()).unwrap_or(0);
+                i += 1;
+            }
+            "--runs" => {
+                o.runs = args.get(i + 1).and_then(|s| s.parse().ok());
+                i += 1;
+            }
+            other => {
+                if o.file.is_none() {
+                    o.file = Some(other.to_string());
+                }
+            }
+        }
+        i += 1;
+    }
+    if o.jobs == 0 {
+        o.jobs = allowed_cpus().len().clamp(1, 16);
+    }
+    o
+}
+
+fn harness_fail(msg: &str) -> ! {
+    eprintln!("HARNESS-ERROR: {msg}");
+    std::process::exit(2);
+}
+
+struct Scratch(PathBuf);
+impl Drop for Scratch {
+    fn drop(&mut self) {
+        let _ = std::fs::remove_dir_all(&self.0);
+    }
+}
+
+/// Build the per-invocation context: shipped data, clean reference start, foreign index, phrase files.
+/// Err(violation text) when a clean start of the tree under test does not even produce a complete index.
+fn setup(o: &Opts, scratch: &Path) -> Result<Ctx, String> {
+    let shipped = shipped::load(&o.repo).unwrap_or_else(|e| harness_fail(&format!("cannot decode shipped data: {e}")));
+    if shipped.constants.is_empty() {
+        harness_fail("no shipped constants found");
+    }
+    let bin_dir = std::env::current_exe().ok().and_then(|p| p.parent().map(|p| p.to_path_buf())).unwrap_or_else(|| harness_fail("no exe dir"));
+    for b in ["simnode", "any"] {
+        if !bin_dir.join(b).is_file() {
+            harness_fail(&format!("{} missing; run ./check setup", bin_dir.join(b).display()));
+        }
+    }
+    let launcher = Launcher { bin_dir, allowed: allowed_cpus(), child_timeout: Duration::from_secs(180) };
+    std::fs::create_dir_all(scratch).unwrap_or_else(|e| harness_fail(&format!("scratch: {e}")));
+    let expected_docs = shipped.constants.len();
+
+    // phrases
+    let mut qprime: Vec<String> = Vec::new();
+    for c in &shipped.constants {
+        let words: Vec<&str> = c.tokens.iter().map(|t| t.as_ref()).collect();
+        if let Some(f) = shipped::typed_forms(&words).into_iter().next() {
+            if !qprime.contains(&f) {
+                qprime.push(f);
+            }
+        }
+    }
+    for f in dirstate::FAKE_PHRASES {
+        qprime.push(f.to_string());
+    }
+    let (q14, q14_keep) = shipped::c14_queries(&shipped);
+    let qprime_file = scratch.join("qprime.json");
+    let q14_file = scratch.join("q14.json");
+    std::fs::write(&qprime_file, serde_json::to_vec(&qprime).unwrap()).unwrap_or_else(|e| harness_fail(&e.to_string()));
+    std::fs::write(&q14_file, serde_json::to_vec(&q14).unwrap()).unwrap_or_else(|e| harness_fail(&e.to_string()));
+
+    // foreign index
+    let foreign = scratch.join("foreign-index");
+    dirstate::build_foreign(&foreign, &shipped).unwrap_or_else(|e| harness_fail(&format!("foreign index: {e}")));
+
+    // clean reference start (one CPU, canonical plan)
+    let gold = Paths::new(scratch.join("gold").join("xdg"));
+    dirstate::wipe(&gold).unwrap_or_else(|e| harness_fail(&e.to_string()));
+    let session = Session {
+        cpus: 1,
+        faults: vec![],
+        ops: vec![Op::Open { slot: 0, mode: Mode::Disk, plan: Plan::default() }],
+        expected_docs,
+        repo: o.repo.clone(),
+    };
+    let out = launcher.simnode(&gold, &scratch.join("gold"), "gold", &session, 0);
+    if let Some(e) = out.harness_error() {
+        harness_fail(&format!("reference start: {e}"));
+    }
+    let info = dirstate::inspect(&gold, &shipped);
+    let ok_exit = out.exit == (Exit::Code { code: 0 });
+    let (version, hash) = match &info.meta {
+        dirstate::MetaInfo::Parsed { version: Some(v), hash: Some(h) } => (v.clone(), h.clone()),
+        _ => (String::new(), String::new()),
+    };
+    let complete = matches!(&info.index, dirstate::IndexInfo::Open { shipped: true, .. });
+    if !ok_exit || version.is_empty() || !complete {
+        return Err(format!(
+            "a clean first start on an empty data directory ended with {:?} and left metadata {:?} over index {:?}; stderr: {}",
+            out.exit,
+            info.meta,
+            info.index,
+            out.stderr.lines().last().unwrap_or("")
+        ));
+    }
+    let gold_index = scratch.join("gold-index");
+    dirstate::copy_dir(&gold.index(), &gold_index).unwrap_or_else(|e| harness_fail(&e.to_string()));
+    let reference = Reference { meta_text: info.meta_text.clone().unwrap_or_default(), version, hash, gold_index, foreign_index: foreign };
+    Ok(Ctx {
+        launcher,
+        repo: o.repo.clone(),
+        shipped,
+        reference,
+        scratch: scratch.to_path_buf(),
+        expected_docs,
+        qprime,
+        qprime_file,
+        q14,
+        q14_keep,
+        q14_file,
+    })
+}
+
+// ---------------------------------------------------------------------------------------------
+// statistics / evidence
+
+#[derive(Default)]
+struct Stats {
+    evaluations: usize,
+    starts: usize,
+    cli_runs: usize,
+    hook_events: usize,
+    lookups_answered: usize,
+    faults_fired: BTreeMap<String, usize>,
+    fault_sites_fired: BTreeSet<String>,
+    faults_configured: usize,
+    faults_not_reached: usize,
+    distinct_nontrivial: HashSet<u64>,
+    distinct_traces: HashSet<u64>,
+    partitions: BTreeSet<String>,
+    workers_hist: BTreeMap<usize, usize>,
+    switches_hist: BTreeMap<String, usize>,
+    dir_classes: BTreeSet<String>,
+    depth_hist: BTreeMap<usize, usize>,
+    tainted_builds: usize,
+    uncontrolled_builds: usize,
+    builds: usize,
+    rebuilds: usize,
+    probes: BTreeMap<String, usize>,
+    cells_fired: BTreeSet<String>,
+    cells_unreachable: BTreeSet<String>,
+    samples: Vec<Value>,
+    harness_errors: Vec<String>,
+    max_open: usize,
+    own_word_queries: usize,
+    index_states: BTreeSet<String>,
+    step_orders: HashSet<u64>,
+}
+
+fn bucket(n: usize) -> String {
+    match n {
+        0 => "0".into(),
+        1..=3 => "1-3".into(),
+        4..=15 => "4-15".into(),
+        16..=63 => "16-63".into(),
+        64..=255 => "64-255".into(),
+        _ => "256+".into(),
+    }
+}
+
+fn compact_history(h: &History) -> Value {
+    let mut v = serde_json::to_value(h).unwrap_or(Value::Null);
+    fn elide(v: &mut Value) {
+        match v {
+            Value::Object(m) => {
+                for (k, x) in m.iter_mut() {
+                    if (k == "subset" || k == "phrases" || k == "bursts" || k == "acts") && x.as_array().map(|a| a.len() > 12).unwrap_or(false) {
+                        let n = x.as_array().unwrap().len();
+                        let head: Vec<Value> = x.as_array().unwrap().iter().take(6).cloned().collect();
+                        *x = json!({"elided": n, "first": head});
+                    } else {
+                        elide(x);
+                    }
+                }
+            }
+            Value::Array(a) => a.iter_mut().for_each(elide),
+            _ => {}
+        }
+    }
+    elide(&mut v);
+    v
+}
+
+fn absorb(st: &mut Stats, ctx: &Ctx, idx: usize, h: &History, trace: &Trace, vs: &[Violation]) {
+    st.evaluations += 1;
+    st.harness_errors.extend(trace.harness_errors.iter().cloned());
+    st.distinct_traces.insert(digest(trace));
+    let mut fired = 0;
+    let mut build_keys: Vec<String> = Vec::new();
+    let mut depth = 0;
+    let mut outcome = Vec::new();
+    let mut nontrivial = false;
+    for (i, s) in h.steps.iter().enumerate() {
+        let Some(so) = trace.steps.get(i) else { continue };
+        st.dir_classes.insert(so.dir.class(&ctx.reference));
+        match s {
+            Step::Fabricate { state } => {
+                outcome.push(json!({"step": i, "fabricated": so.dir.class(&ctx.reference)}));
+                if state.data_dir {
+                    nontrivial = nontrivial || h.property == "C15";
+                }
+            }
+            Step::Damage { .. } => outcome.push(json!({"step": i, "damaged_to": so.dir.class(&ctx.reference)})),
+            Step::Start { session } => {
+                st.starts += 1;
+                let Some(c) = &so.child else { continue };
+                let configured = session.faults.iter().filter(|f| !matches!(f, Fault::ShortWrites { .. })).count();
+                st.faults_configured += configured;
+                if configured > 0 {
+                    depth += 1;
+                }
+                let label = session.faults.iter().map(gen::fault_label).collect::<Vec<_>>().join("+");
+                if let Some((kind, point, _k)) = c.fault_fired() {
+                    fired += 1;
+                    *st.faults_fired.entry(kind.clone()).or_default() += 1;
+                    st.fault_sites_fired.insert(format!("{kind}@{point}"));
+                    let prior = if i == 0 { "meta[absent] index[absent]".to_string() } else { trace.steps[i - 1].dir.class(&ctx.reference) };
+                    st.cells_fired.insert(format!("{prior} x {kind}@{point}"));
+                } else if configured > 0 {
+                    st.faults_not_reached += 1;
+                    let prior = if i == 0 { "meta[absent] index[absent]".to_string() } else { trace.steps[i - 1].dir.class(&ctx.reference) };
+                    for f in &session.faults {
+                        if let Fault::Kill { point, .. } | Fault::Fail { point, .. } = f {
+                            st.cells_unreachable.insert(format!("{prior} x {point}"));
+                        }
+                    }
+                }
+                if session.faults.iter().any(|f| matches!(f, Fault::ShortWrites { .. })) && c.events.iter().any(|e| matches!(e, Event::Build(b) if b.points.iter().any(|(p, _)| p == "meta.write"))) {
+                    *st.faults_fired.entry("short-writes".into()).or_default() += 1;
+                    fired += 1;
+                }
+                for b in builds(c) {
+                    st.builds += 1;
+                    st.hook_events += b.points.iter().map(|p| p.1).sum::<usize>();
+                    if b.rebuilt {
+                        st.rebuilds += 1;
+                        *st.workers_hist.entry(b.workers).or_default() += 1;
+                        *st.switches_hist.entry(bucket(b.switches)).or_default() += 1;
+                        if b.controlled {
+                            st.partitions.insert(format!("{}:{}", b.workers, b.assign_hash));
+                        } else {
+                            st.uncontrolled_builds += 1;
+                        }
+                        if !b.taint.is_empty() {
+                            st.tainted_builds += 1;
+                            *st.probes.entry(format!("taint:{}", b.taint.join(","))).or_default() += 1;
+                        }
+                        if b.points.iter().any(|(p, _)| p == "index.removed") {
+                            *st.probes.entry("rebuild-removed-an-existing-index-directory".into()).or_default() += 1;
+                        }
+                    } else if b.mode == "disk" && b.error.is_none() {
+                        *st.probes.entry("reopen-without-rebuild".into()).or_default() += 1;
+                    }
+                    build_keys.push(format!("{}:{}:{}:{}", b.mode, b.rebuilt, b.workers, b.assign_hash));
+                }
+                for e in &c.events {
+                    match e {
+                        Event::Answers { count, .. } => st.lookups_answered += count,
+                        Event::OwnWords { queries, winners_hash, .. } => {
+                            st.own_word_queries += queries;
+                            st.index_states.insert(format!("{}|{}", h.label.split('(').next().unwrap_or("").trim(), winners_hash));
+                            nontrivial = nontrivial || *queries > 0;
+                        }
+                        Event::Interleave { max_open, queries, .. } => {
+                            st.max_open = st.max_open.max(*max_open);
+                            if *max_open >= 2 {
+                                nontrivial = true;
+                            }
+                            for op in &session.ops {
+                                if let Op::Interleave { acts, .. } = op {
+                                    st.step_orders.insert(fnv1a(serde_json::to_string(acts).unwrap_or_default().as_bytes()));
+                                }
+                            }
+                            for q in queries {
+                                if q.lookups.len() >= 2 {
+                                    *st.probes.entry("query-with-several-lookups".into()).or_default() += 1;
+                                }
+                                if q.results.iter().any(|r| matches!(r, Res::Err { .. })) && q.results.iter().any(|r| matches!(r, Res::Ok { .. })) {
+                                    *st.probes.entry("query-with-error-between-results".into()).or_default() += 1;
+                                }
+                                if !q.exhausted {
+                                    *st.probes.entry("query-closed-before-exhausted".into()).or_default() += 1;
+                                }
+                            }
+                        }
+                        _ => {}
+                    }
+                }
+                outcome.push(json!({"step": i, "start": if label.is_empty() { "undisturbed".to_string() } else { label }, "fired": c.fault_fired().map(|f| format!("{}@{}#{}", f.0, f.1, f.2)), "exit": c.exit, "directory_after": so.dir.class(&ctx.reference)}));
+            }
+            Step::Cli { query, env, .. } => {
+                st.cli_runs += 1;
+                if let Some(c) = &so.child {
+                    if !env.is_empty() {
+                        depth += 1;
+                        st.faults_configured += 1;
+                        let died = !matches!(c.exit, Exit::Code { code: 0 });
+                        if died {
+                            fired += 1;
+                            for (k, v) in env {
+                                let kind = if k.ends_with("KILL_AT") { "kill(cli)" } else { "fail(cli)" };
+                                *st.faults_fired.entry(kind.into()).or_default() += 1;
+                                st.fault_sites_fired.insert(format!("{kind}@{}", v.split('#').next().unwrap_or("")));
+                            }
+                        } else {
+                            st.faults_not_reached += 1;
+                        }
+                    } else if !c.stdout.is_empty() {
+                        nontrivial = nontrivial || h.property == "C19";
+                        if c.stdout.contains("error: ") {
+                            *st.probes.entry("cli-printed-a-diagnostic".into()).or_default() += 1;
+                        }
+                        if c.stdout.contains('…') {
+                            *st.probes.entry("cli-printed-a-truncated-decimal".into()).or_default() += 1;
+                        }
+                    }
+                    outcome.push(json!({"step": i, "any": query, "exit": c.exit, "stdout": c.stdout.chars().take(160).collect::<String>(), "directory_after": so.dir.class(&ctx.reference)}));
+                }
+            }
+        }
+    }
+    *st.depth_hist.entry(depth).or_default() += 1;
+    if fired > 0 {
+        nontrivial = true;
+        if fired >= 2 {
+            *st.probes.entry("fault-inside-recovery-from-an-earlier-fault".into()).or_default() += 1;
+        }
+    }
+    if h.property == "C14" {
+        let mut kinds = build_keys.clone();
+        kinds.sort();
+        kinds.dedup();
+        nontrivial = kinds.len() >= 2;
+    }
+    if nontrivial {
+        let mut key = history_hash(h);
+        if h.property == "C14" || h.property == "C16" {
+            key ^= fnv1a(build_keys.join("|").as_bytes());
+        }
+        st.distinct_nontrivial.insert(key);
+    }
+    if idx < 4 || (!vs.is_empty() && st.samples.len() < 8) {
+        st.samples.push(json!({"history": compact_history(h), "outcome": outcome, "violations": vs.iter().map(|v| v.clause.clone()).collect::<Vec<_>>()}));
+    }
+}
+
+fn run_parallel(ctx: &Ctx, hs: &[History], jobs: usize, deadline: Option<Instant>, mut on: impl FnMut(usize, &History, Trace, Vec<Violation>)) -> usize {
+    let next = AtomicUsize::new(0);
+    let (tx, rx) = mpsc::channel::<(usize, Trace, Vec<Violation>)>();
+    let mut done = 0;
+    std::thread::scope(|s| {
+        for j in 0..jobs.min(hs.len().max(1)) {
+            let tx = tx.clone();
+            let next = &next;
+            s.spawn(move || loop {
+                if let Some(d) = deadline {
+                    if Instant::now() > d {
+                        break;
+                    }
+                }
+                let i = next.fetch_add(1, Ordering::SeqCst);
+                if i >= hs.len() {
+                    break;
+                }
+                let work = ctx.scratch.join(format!("job{j}"));
+                let trace = run_history(ctx, &hs[i], &work, j);
+                let vs = if trace.harness_errors.is_empty() { judge(ctx, &hs[i], &trace) } else { vec![] };
+                if tx.send((i, trace, vs)).is_err() {
+                    break;
+                }
+            });
+        }
+        drop(tx);
+        for (i, trace, vs) in rx {
+            done += 1;
+            on(i, &hs[i], trace, vs);
+        }
+    });
+    done
+}
+
+// ---------------------------------------------------------------------------------------------
+// known findings
+
+#[derive(serde::Deserialize, Clone, Debug)]
+struct Finding {
+    status: String,
+    property: String,
+    /// prefix of a violation signature
+    signature_prefix: String,
+    what: String,
+    #[serde(default)]
+    commit: Option<String>,
+}
+
+fn load_findings(verif: &Path) -> Vec<Finding> {
+    let p = verif.join("known_findings.json");
+    match std::fs::read_to_string(&p) {
+        Ok(t) => match serde_json::from_str::<Value>(&t) {
+            Ok(v) => v.get("findings").and_then(|f| serde_json::from_value(f.clone()).ok()).unwrap_or_default(),
+            Err(e) => harness_fail(&format!("{}: {e}", p.display())),
+        },
+        Err(_) => vec![],
+    }
+}
+
+// ---------------------------------------------------------------------------------------------
+
+fn write_replay(o: &Opts, h: &History, v: &Violation, extra: Value) -> PathBuf {
+    let dir = o.verif.join("replays");
+    let _ = std::fs::create_dir_all(&dir);
+    let path = dir.join(format!("{}-{}-{:016x}.json", h.property, o.seed, history_hash(h)));
+    let doc = json!({
+        "property": h.property,
+        "seed": o.seed,
+        "run_seed": h.seed,
+        "clause": v.clause,
+        "detail": v.detail,
+        "signature": v.signature,
+        "minimisation": extra,
+        "history": h,
+    });
+    std::fs::write(&path, serde_json::to_vec_pretty(&doc).unwrap()).unwrap_or_else(|e| harness_fail(&format!("{}: {e}", path.display())));
+    path
+}
+
+fn replay_in_fresh_process(path: &Path) -> Option<bool> {
+    let exe = std::env::current_exe().ok()?;
+    let out = std::process::Command::new(exe).arg("replay").arg(path).output().ok()?;
+    match out.status.code() {
+        Some(1) => Some(true),
+        Some(0) => Some(false),
+        _ => None,
+    }
+}
+
+fn histories_for(ctx: &Ctx, o: &Opts, prop: &str, quick: bool) -> Vec<History> {
+    let mut hs = Vec::new();
+    let pool = gen::phrase_pool(ctx);
+    let n = |q: usize, t: usize| o.runs.unwrap_or(if quick { q } else { t });
+    match prop {
+        "C14" => {
+            for i in 0..n(48, 3000) {
+                let seed = derive(o.seed, "C14", i as u64);
+                hs.push(gen::c14_random(ctx, &mut Rng::new(seed), seed, quick));
+            }
+        }
+        "C16" => {
+            let perms = if quick { Perms::Reverse } else { Perms::All };
+            for i in 0..n(12, 240) {
+                let seed = derive(o.seed, "C16", i as u64);
+                hs.push(gen::c16_random(ctx, &mut Rng::new(seed), seed, perms, i));
+            }
+        }
+        "C18" => {
+            for i in 0..n(200, 20000) {
+                let seed = derive(o.seed, "C18", i as u64);
+                hs.push(gen::c18_random(ctx, &pool, &mut Rng::new(seed), seed));
+            }
+        }
+        "C19" => {
+            for i in 0..n(40, 2000) {
+                let seed = derive(o.seed, "C19", i as u64);
+                hs.push(gen::c19_random(ctx, &pool, &mut Rng::new(seed), seed));
+            }
+        }
+        _ => {}
+    }
+    hs
+}
+
+struct Found {
+    idx: usize,
+    history: History,
+    violation: Violation,
+}
+
+fn cmd_run(o: &Opts) -> i32 {
+    let t0 = Instant::now();
+    let quick = o.tier != "thorough";
+    let prop = o.prop.as_str();
+    if !["C14", "C15", "C16", "C18", "C19"].contains(&prop) {
+        harness_fail(&format!("unknown property {prop:?}"));
+    }
+    let scratch_root = std::env::var("TMPDIR").unwrap_or_else(|_| "/tmp".into());
+    let scratch = Scratch(PathBuf::from(scratch_root).join(format!("verif-sim-{}", std::process::id())));
+    let findings = load_findings(&o.verif);
+    println!("simctl: property={prop} tier={} seed={} jobs={} repo={}", o.tier, o.seed, o.jobs, o.repo);
+
+    let ctx = match setup(o, &scratch.0) {
+        Ok(c) => c,
+        Err(why) => {
+            if prop == "C15" {
+                // the most basic history already fails: nothing -> one start
+                let h = History {
+                    property: "C15".into(),
+                    seed: 0,
+                    label: "clean first start".into(),
+                    steps: vec![Step::Start { session: Session { cpus: 1, faults: vec![], ops: vec![Op::Open { slot: 0, mode: Mode::Disk, plan: Plan::default() }], expected_docs: 0, repo: String::new() } }],
+                };
+                let v = Violation { property: "C15".into(), clause: "C15.clean-start".into(), step: 0, detail: why.clone(), focus: vec![], signature: "C15.clean-start".into() };
+                let path = write_replay(o, &h, &v, json!({"note": "reference start failed; not minimised"}));
+                println!("violation: {why}");
+                println!("VIOLATION property=C15 replay={}", path.display());
+                write_evidence(o, prop, &Stats { evaluations: 1, ..Default::default() }, 1, t0, 0, json!({"reference_start_failed": why}));
+                return 1;
+            }
+            harness_fail(&format!("reference start failed (judged by C15): {why}"));
+        }
+    };
+    println!(
+        "simctl: {} shipped constants, {} typeable phrases, {} C14 phrases, reference version={} hash={}",
+        ctx.shipped.constants.len(),
+        ctx.qprime.len() - dirstate::FAKE_PHRASES.len(),
+        ctx.q14.len(),
+        ctx.reference.version,
+        ctx.reference.hash
+    );
+    let deadline = o.budget.map(|b| t0 + b);
+    let mut st = Stats::default();
+    let mut found: Vec<Found> = Vec::new();
+    let mut extra = json!({});
+
+    let collect = |st: &mut Stats, found: &mut Vec<Found>, hs: &[History]| {
+        run_parallel(&ctx, hs, o.jobs, deadline, |i, h, trace, vs| {
+            let n = st.evaluations;
+            absorb(st, &ctx, n, h, &trace, &vs);
+            for v in vs {
+                found.push(Found { idx: i, history: h.clone(), violation: v });
+            }
+        })
+    };
+
+    // committed regression corpus first
+    let known_dir = o.verif.join("replays").join("known");
+    let mut corpus = Vec::new();
+    if let Ok(rd) = std::fs::read_dir(&known_dir) {
+        let mut files: Vec<PathBuf> = rd.flatten().map(|e| e.path()).filter(|p| p.extension().map(|e| e == "json").unwrap_or(false)).collect();
+        files.sort();
+        for f in files {
+            if let Ok(t) = std::fs::read_to_string(&f) {
+                if let Ok(v) = serde_json::from_str::<Value>(&t) {
+                    if v.get("property").and_then(|p| p.as_str()) == Some(prop) {
+                        if let Some(h) = v.get("history").and_then(|h| serde_json::from_value::<History>(h.clone()).ok()) {
+                            corpus.push(h);
+                        }
+                    }
+                }
+            }
+        }
+    }
+    let corpus_n = corpus.len();
+    if !corpus.is_empty() {
+        collect(&mut st, &mut found, &corpus);
+    }
+
+    if prop == "C15" {
+        // phase 1: every listed state, undisturbed (also learns which hook points each state reaches)
+        let states = gen::c15_states(&ctx, !quick);
+        let mut rng = Rng::new(derive(o.seed, "C15-subset", 0));
+        let subset = if quick { gen::qprime_subset(&ctx, &mut rng, 40) } else { gen::qprime_subset(&ctx, &mut rng, 200) };
+        let probes: Vec<History> = states.iter().map(|(tag, s)| gen::c15_cell(&ctx, tag, s, vec![], if quick { subset.clone() } else { None }, 0)).collect();
+        let mut reached: Vec<Vec<(String, usize)>> = vec![Vec::new(); probes.len()];
+        run_parallel(&ctx, &probes, o.jobs, deadline, |i, h, trace, vs| {
+            if let Some(c) = trace.steps.get(1).and_then(|s| s.child.as_ref()) {
+                if let Some(b) = builds(c).into_iter().find(|b| b.mode == "disk") {
+                    reached[i] = b.points.clone();
+                }
+            }
+            let n = st.evaluations;
+            absorb(&mut st, &ctx, n, h, &trace, &vs);
+            for v in vs {
+                found.push(Found { idx: i, history: h.clone(), violation: v });
+            }
+        });
+        // phase 2: the state x crash-point product
+        let mut cells = Vec::new();
+        let mut class_seen: BTreeSet<String> = BTreeSet::new();
+        for (si, (tag, s)) in states.iter().enumerate() {
+            // torn lengths and garbage kinds beyond the first of each class get a seeded sample of sites
+            let class: String = tag.split('(').next().unwrap_or(tag).to_string() + tag.rsplit(')').next().unwrap_or("");
+            let representative = class_seen.insert(class);
+            let mut sites: Vec<(String, usize)> = Vec::new();
+            for (p, count) in &reached[si] {
+                for k in gen::k_samples(&ctx, p, *count, !quick) {
+                    sites.push((p.clone(), k));
+                }
+            }
+            if !representative {
+                let mut r = Rng::new(derive(o.seed, "C15-sites", si as u64));
+                r.shuffle(&mut sites);
+                sites.truncate(if quick { 2 } else { 6 });
+            }
+            for (p, k) in sites {
+                let seed = derive(o.seed, "C15-cell", cells.len() as u64);
+                let mut r = Rng::new(seed);
+                cells.push(gen::c15_cell(&ctx, tag, s, vec![Fault::Kill { point: p.clone(), k }], subset.clone(), seed));
+                if !quick || r.chance(1, 3) {
+                    cells.push(gen::c15_cell(&ctx, tag, s, vec![Fault::Fail { point: p.clone(), k, interrupted: false }], subset.clone(), seed));
+                }
+                if p == "meta.write" {
+                    cells.push(gen::c15_cell(&ctx, tag, s, vec![Fault::Fail { point: p.clone(), k, interrupted: true }], subset.clone(), seed));
+                    cells.push(gen::c15_cell(&ctx, tag, s, vec![Fault::ShortWrites { max: 1 + k % 3 }, Fault::Kill { point: p.clone(), k: k * 2 }], subset.clone(), seed));
+                }
+            }
+        }
+        let n_cells = cells.len();
+        collect(&mut st, &mut found, &cells);
+        // phase 3: seeded deeper histories
+        let n_random = o.runs.unwrap_or(if quick { 40 } else { 2000 });
+        let randoms: Vec<History> = (0..n_random)
+            .map(|i| {
+                let seed = derive(o.seed, "C15-random", i as u64);
+                gen::c15_random(&ctx, &mut Rng::new(seed), seed, quick)
+            })
+            .collect();
+        collect(&mut st, &mut found, &randoms);
+        extra = json!({"listed_states": states.len(), "undisturbed_state_probes": probes.len(), "state_x_crash_point_cells": n_cells, "seeded_deeper_histories": n_random,
+            "exhaustive_over": "every listed state class x every hook point its recovery reaches x kill and fail (all sampled k per multi-hit point); other torn lengths / garbage kinds with a seeded sample of sites"});
+    } else {
+        let hs = histories_for(&ctx, o, prop, quick);
+        collect(&mut st, &mut found, &hs);
+    }
+    if let Value::Object(m) = &mut extra {
+        m.insert("regression_corpus_histories".into(), json!(corpus_n));
+    }
+
+    // ------------------------------------------------------------------ verdict
+    if !st.harness_errors.is_empty() {
+        for e in st.harness_errors.iter().take(5) {
+            eprintln!("HARNESS-ERROR: {e}");
+        }
+    }
+    found.sort_by_key(|f| f.idx);
+    let mut reported: BTreeSet<String> = BTreeSet::new();
+    let mut known_printed: BTreeSet<String> = BTreeSet::new();
+    let mut violations = 0;
+    for f in &found {
+        if let Some(k) = findings.iter().find(|k| k.status == "known" && k.property == f.violation.property && f.violation.signature.starts_with(&k.signature_prefix)) {
+            if known_printed.insert(k.signature_prefix.clone()) {
+                println!("KNOWN-FINDING: property={} {}", k.property, k.what);
+            }
+            continue;
+        }
+        violations += 1;
+        if !reported.insert(f.violation.clause.clone()) || reported.len() > 3 {
+            continue;
+        }
+        println!("violation [{}] in history {:?}: {}", f.violation.clause, f.history.label, f.violation.detail);
+        let sh = shrink(&ctx, &f.history, &f.violation, 150, &ctx.scratch.join("shrink"), 0);
+        let path = write_replay(
+            o,
+            &sh.history,
+            &sh.violation,
+            json!({"candidates_tried": sh.tried, "accepted": sh.accepted, "steps_before": f.history.steps.len(), "steps_after": sh.history.steps.len(), "original_label": f.history.label}),
+        );
+        let reproduced = replay_in_fresh_process(&path);
+        println!("minimised: {} -> {} steps ({} candidates); replay in a fresh process reproduced: {:?}", f.history.steps.len(), sh.history.steps.len(), sh.tried, reproduced);
+        println!("  {}", sh.violation.detail);
+        println!("VIOLATION property={} replay={}", f.violation.property, path.display());
+    }
+    {
+        let mut by_sig: BTreeMap<String, usize> = BTreeMap::new();
+        for f in &found {
+            *by_sig.entry(f.violation.signature.clone()).or_default() += 1;
+        }
+        for (s, n) in &by_sig {
+            println!("violation class x{n}: {s}");
+        }
+    }
+    for k in findings.iter().filter(|k| k.status == "fixed" && k.property == prop) {
+        println!("note: fixed finding on record: property={} {} {}", k.property, k.commit.clone().unwrap_or_default(), k.what);
+    }
+    let wall = t0.elapsed().as_secs_f64();
+    write_evidence(o, prop, &st, violations, t0, corpus_n, extra);
+    println!(
+        "simctl: {} histories, {} starts, {} cli runs, {} faults fired, {} distinct non-trivial, {:.1}s -> {}",
+        st.evaluations,
+        st.starts,
+        st.cli_runs,
+        st.faults_fired.values().sum::<usize>(),
+        st.distinct_nontrivial.len(),
+        wall,
+        if violations > 0 { "VIOLATED" } else { "held" }
+    );
+    if violations > 0 {
+        1
+    } else if !st.harness_errors.is_empty() {
+        2
+    } else {
+        0
+    }
+}
+
+fn write_evidence(o: &Opts, prop: &str, st: &Stats, violations: usize, t0: Instant, _corpus: usize, extra: Value) {
+    let wall = t0.elapsed().as_secs_f64();
+    let level = if prop == "C15" { "fault_enumeration" } else { "exploration" };
+    let rule = match prop {
+        "C14" => "seeded histories of 3-5 sessions (1-3 in-memory builds in one process / first on-disk start / reopen / rebuild after damaged metadata), each build under its own worker plan and CPU count; non-trivial = the history contains at least two index builds or openings that differ in kind or realised document->worker partition; distinct by (history, realised partitions)",
+        "C15" => "phase 1 every listed prior state undisturbed, phase 2 the state x crash-point product (kill and fail at every hook point the state's recovery reaches), phase 3 seeded histories of depth 2-4 with damage and faults placed inside earlier recoveries; each followed by two undisturbed starts; non-trivial = at least one injected fault actually fired or the start found a fabricated non-empty directory; distinct by canonical step list",
+        "C16" => "seeded histories producing index states of every provenance class (fresh in-memory, fresh on-disk, reopened, rebuilt over foreign data, recovered after a fault, started from a listed damaged state); in each undisturbed session all shipped constants are looked up by their own words (and permutations); non-trivial = at least one own-words sweep ran; distinct by (history, realised partitions)",
+        "C18" => "seeded scripts of 4-11 lazily evaluated queries (each text with both describe flags) opened, stepped and closed in PRNG order against one database, compared with isolation on a second database and with the lookup seam; non-trivial = at least two iterators were open at once; distinct by canonical script",
+        "C19" => "seeded histories: a listed prior directory state (sometimes a killed start), then the real `any` program on 2-4 generated queries (first call performs the recovery, each query repeated), then a library session on the same directory for the same texts; non-trivial = the program printed something; distinct by canonical step list",
+        _ => "",
+    };
+    let per_hour = |n: usize| if wall > 0.0 { (n as f64 * 3600.0 / wall).round() as u64 } else { 0 };
+    let mut coverage = json!({
+        "evaluations": st.evaluations,
+        "distinct_nontrivial": st.distinct_nontrivial.len(),
+        "rule": rule,
+        "samples": st.samples,
+        "exhaustive": false,
+        "runs_per_hour": per_hour(st.evaluations),
+        "process_starts": st.starts,
+        "cli_runs": st.cli_runs,
+        "simulated_time": {"unit": "logical steps (hook events); the system has no clock or timer", "hook_events": st.hook_events, "phrases_answered": st.lookups_answered},
+        "faults_fired": st.faults_fired,
+        "fault_sites_fired": st.fault_sites_fired,
+        "faults_configured": st.faults_configured,
+        "faults_whose_point_was_not_reached": st.faults_not_reached,
+        "distinct_traces": st.distinct_traces.len(),
+        "distinct_worker_partitions": st.partitions.len(),
+        "index_builds": st.builds,
+        "rebuilds": st.rebuilds,
+        "workers_histogram": st.workers_hist.iter().map(|(k, v)| (k.to_string(), *v)).collect::<BTreeMap<_, _>>(),
+        "context_switch_histogram": st.switches_hist,
+        "directory_classes_seen": st.dir_classes,
+        "fault_depth_histogram": st.depth_hist.iter().map(|(k, v)| (k.to_string(), *v)).collect::<BTreeMap<_, _>>(),
+        "tainted_builds": st.tainted_builds,
+        "uncontrolled_builds": st.uncontrolled_builds,
+        "probes": st.probes,
+        "cells_fired": st.cells_fired.len(),
+        "cells_fired_list": st.cells_fired,
+        "cells_unreachable": st.cells_unreachable,
+        "harness_errors": st.harness_errors.len(),
+        "components": {
+            "real": ["anything library (feature verif)", "any binary (src/bin/any.rs)", "tantivy 0.19.2", "crossbeam-channel", "rayon", "serde_cbor", "flate2", "rust-embed", "OS threads (scheduled by the simulator through the tokenizer seam)", "local file system (private XDG_DATA_HOME per history)"],
+            "stubbed": [],
+            "simulator_owned": ["which indexing worker receives which document", "worker release order before commit", "worker count via CPU affinity", "kill / io-error / EINTR / short-write injection at hook points", "directory damage between starts", "interleaving of open queries"]
+        }
+    });
+    if let (Value::Object(c), Value::Object(e)) = (&mut coverage, extra) {
+        for (k, v) in e {
+            c.insert(k, v);
+        }
+        if prop == "C16" {
+            c.insert("own_word_queries".into(), json!(st.own_word_queries));
+            c.insert("distinct_index_states".into(), json!(st.index_states.len()));
+        }
+        if prop == "C18" {
+            c.insert("max_simultaneously_open_queries".into(), json!(st.max_open));
+            c.insert("distinct_step_orders".into(), json!(st.step_orders.len()));
+        }
+    }
+    let ev = json!({
+        "property_id": prop,
+        "tier": if o.tier == "thorough" { "thorough" } else { "quick" },
+        "seed": o.seed,
+        "level": level,
+        "coverage": coverage,
+        "assumptions": [
+            "SIGKILL semantics of the local file system: completed writes, renames and unlinks survive, nothing else (the property's fault model is a killed run, not power loss)",
+            "tantivy's Index::open_in_dir defines whether an index directory 'opens'",
+            "segment order inside tantivy is a function of segment sizes when these are pairwise distinct (plans are repaired to guarantee it; checked by the determinism self-test)",
+            "the harness decodes the shipped facts from the repository's db/*.bin.gz with the library's own Constant type"
+        ],
+        "wall_s": wall,
+        "violations": violations
+    });
+    let dir = o.verif.join("evidence");
+    let _ = std::fs::create_dir_all(&dir);
+    let path = dir.join(format!("{prop}.json"));
+    if let Err(e) = std::fs::write(&path, serde_json::to_vec_pretty(&ev).unwrap()) {
+        harness_fail(&format!("{}: {e}", path.display()));
+    }
+}
+
+fn cmd_replay(o: &Opts) -> i32 {
+    let Some(file) = &o.file else { harness_fail("usage: simctl replay <file>") };
+    let text = std::fs::read_to_string(file).unwrap_or_else(|e| harness_fail(&format!("{file}: {e}")));
+    let v: Value = serde_json::from_str(&text).unwrap_or_else(|e| harness_fail(&format!("{file}: {e}")));
+    let h: History = serde_json::from_value(v.get("history").cloned().unwrap_or(Value::Null)).unwrap_or_else(|e| harness_fail(&format!("{file}: history: {e}")));
+    let clause = v.get("clause").and_then(|c| c.as_str()).unwrap_or("").to_string();
+    let scratch_root = std::env::var("TMPDIR").unwrap_or_else(|_| "/tmp".into());
+    let scratch = Scratch(PathBuf::from(scratch_root).join(format!("verif-sim-{}", std::process::id())));
+    let ctx = match setup(o, &scratch.0) {
+        Ok(c) => c,
+        Err(why) => {
+            if clause == "C15.clean-start" {
+                println!("reproduced [{clause}]: {why}");
+                println!("VIOLATION property=C15 replay={file}");
+                return 1;
+            }
+            harness_fail(&format!("reference start failed: {why}"));
+        }
+    };
+    let trace = run_history(&ctx, &h, &ctx.scratch.join("replay"), 0);
+    if !trace.harness_errors.is_empty() {
+        harness_fail(&trace.harness_errors.join("; "));
+    }
+    let vs = judge(&ctx, &h, &trace);
+    for (i, s) in h.steps.iter().enumerate() {
+        let so = &trace.steps[i];
+        let what = match s {
+            Step::Fabricate { .. } => "fabricate".to_string(),
+            Step::Damage { d } => format!("damage {d:?}"),
+            Step::Start { session } => format!(
+                "start [{}] -> {:?}{}",
+                session.faults.iter().map(gen::fault_label).collect::<Vec<_>>().join("+"),
+                so.child.as_ref().map(|c| c.exit.clone()),
+                so.child.as_ref().and_then(|c| c.fault_fired()).map(|f| format!(" fired {}@{}#{}", f.0, f.1, f.2)).unwrap_or_default()
+            ),
+            Step::Cli { query, .. } => format!("any {query:?} -> {:?}", so.child.as_ref().map(|c| c.exit.clone())),
+        };
+        println!("step {i}: {what}; directory now {}", so.dir.class(&ctx.reference));
+    }
+    let same: Vec<&Violation> = vs.iter().filter(|x| clause.is_empty() || x.clause == clause).collect();
+    if let Some(x) = same.first() {
+        println!("reproduced [{}]: {}", x.clause, x.detail);
+        println!("VIOLATION property={} replay={file}", x.property);
+        1
+    } else {
+        for x in &vs {
+            println!("other violation [{}]: {}", x.clause, x.detail);
+        }
+        println!("not reproduced: clause {clause:?} holds on this tree");
+        0
+    }
+}
+
+/// Run every history twice (different job slots, hence different CPUs and scratch paths) and
+/// compare the canonical traces.
+fn cmd_determinism(o: &Opts) -> i32 {
+    let scratch_root = std::env::var("TMPDIR").unwrap_or_else(|_| "/tmp".into());
+    let scratch = Scratch(PathBuf::from(scratch_root).join(format!("verif-sim-{}", std::process::id())));
+    let ctx = setup(o, &scratch.0).unwrap_or_else(|e| harness_fail(&e));
+    let n = o.runs.unwrap_or(50);
+    let prop = o.prop.as_str();
+    let mut hs: Vec<History> = Vec::new();
+    if prop == "C15" {
+        for i in 0..n {
+            let seed = derive(o.seed, "C15-random", i as u64);
+            hs.push(gen::c15_random(&ctx, &mut Rng::new(seed), seed, true));
+        }
+    } else {
+        let mut oo = Opts { runs: Some(n), ..parse_opts() };
+        oo.prop = prop.to_string();
+        hs = histories_for(&ctx, &oo, prop, true);
+    }
+    let doubled: Vec<History> = hs.iter().flat_map(|h| [h.clone(), h.clone()]).collect();
+    let mut canon: Vec<Option<String>> = vec![None; doubled.len()];
+    let mut herr = 0;
+    run_parallel(&ctx, &doubled, o.jobs, None, |i, _h, trace, _| {
+        if !trace.harness_errors.is_empty() {
+            herr += 1;
+        }
+        canon[i] = Some(canonical(&trace));
+    });
+    let mut diffs = 0;
+    for i in 0..hs.len() {
+        if canon[2 * i] != canon[2 * i + 1] {
+            diffs += 1;
+            if diffs <= 3 {
+                let a = canon[2 * i].clone().unwrap_or_default();
+                let b = canon[2 * i + 1].clone().unwrap_or_default();
+                let pos = a.bytes().zip(b.bytes()).position(|(x, y)| x != y).unwrap_or(0);
+                let from = pos.saturating_sub(200);
+                eprintln!("DIVERGENCE in history {i} ({}):\n  A: ...{}\n  B: ...{}", hs[i].label, &a[from..(pos + 200).min(a.len())], &b[from..(pos + 200).min(b.len())]);
+            }
+        }
+    }
+    println!("determinism: property={prop} histories={} executed twice each, divergences={diffs}, harness_errors={herr}", hs.len());
+    if diffs > 0 || herr > 0 {
+        2
+    } else {
+        0
+    }
+}
+
+fn main() {
+    let o = parse_opts();
+    let code = match o.cmd.as_str() {
+        "run" => cmd_run(&o),
+        "replay" => cmd_replay(&o),
+        "determinism" => cmd_determinism(&o),
+        _ => {
+            eprintln!("usage: simctl run --prop <C14|C15|C16|C18|C19> [--tier quick|thorough] [--seed N] [--jobs N] | replay <file> | determinism --prop <id> [--runs N]");
+            2
+        }
+    };
+    std::process::exit(code);
+}
